@@ -907,6 +907,64 @@ thread_local! {
     static IS_RECEIVER: std::cell::Cell<bool> = const { std::cell::Cell::new(false) };
 }
 
+/// `vq clones <pairs>`: two clones of one sender (cloned before any timer exists) schedule pairs of
+/// timers; the second of each pair gets a duration shorter by 0..1500 ns, scanning the gap between the
+/// two clock readings, so that many pairs fall on the same `Instant` to the nanosecond. Every id must be
+/// distinct, a cancel through one id (every fourth pair) must not cancel the other event, every other
+/// event must arrive exactly once.
+fn run_clones(pairs: usize) -> (String, String, String) {
+    if pairs == 0 || pairs > 2_000_000 {
+        return ("bad-case".into(), "ok".into(), String::new())
+    }
+    let mut q = EventReceiver::<u64>::default();
+    let a = q.sender().clone();
+    let b = q.sender().clone();
+    let base = Duration::from_millis(400 + (pairs as u64) / 400);
+    let mut ids: Vec<TimerId> = Vec::with_capacity(2 * pairs);
+    let mut cancelled: std::collections::HashSet<u64> = Default::default();
+    for i in 0..pairs {
+        let ia = a.send_with_timer(2 * i as u64, base);
+        let ib = b.send_with_timer(2 * i as u64 + 1, base - Duration::from_nanos((i % 1500) as u64));
+        ids.push(ia);
+        ids.push(ib);
+        if i % 4 == 0 {
+            a.cancel_timer(ia);
+            cancelled.insert(2 * i as u64);
+        }
+    }
+    let mut seen_ids = std::collections::HashSet::new();
+    let dup_ids = ids.iter().filter(|id| !seen_ids.insert(**id)).count();
+    let mut got = vec![0u8; 2 * pairs];
+    let deadline = Instant::now() + base + Duration::from_secs(3);
+    let mut n = 0usize;
+    while n < 2 * pairs - cancelled.len() && Instant::now() < deadline {
+        match q.receive_timeout(Duration::from_millis(300)) {
+            Some(e) => {
+                got[e as usize] = got[e as usize].saturating_add(1);
+                n += 1;
+            }
+            None => {
+                if Instant::now() > deadline - Duration::from_secs(2) {
+                    break
+                }
+            }
+        }
+    }
+    // anything still coming is a duplicate
+    while let Some(e) = q.receive_timeout(Duration::from_millis(50)) {
+        got[e as usize] = got[e as usize].saturating_add(1);
+    }
+    let lost = (0..2 * pairs as u64).filter(|e| !cancelled.contains(e) && got[*e as usize] == 0).count();
+    let dup = got.iter().filter(|c| **c > 1).count();
+    let cross = cancelled.iter().filter(|e| got[**e as usize] > 0).count();
+    let ok = dup_ids == 0 && lost == 0 && dup == 0 && cross == 0;
+    (
+        format!("dup_ids={} lost={} cross_cancel={}", dup_ids, lost, cross),
+        if ok { "ok".into() } else { format!("FAIL {} equal TimerIds among distinct timers, {} events lost, {} delivered twice, {} cancelled events delivered", dup_ids, lost, dup, cross) },
+        "clones,cancel,interleaved".into(),
+    )
+}
+
 fn run_race(kind: char) -> (String, String, String, String) {
     use message_io::util::verif::set_sync_handler;
     use std::sync::atomic::{AtomicBool, Ordering};
@@ -1070,6 +1128,11 @@ fn main() {
                 }
             }
         }
+        "gen-clones" => {
+            let pairs = arg_u64(2, 150000) as usize;
+            let (i, v, t) = run_clones(pairs);
+            emit(&mut out, &format!("vq clones {}", pairs), &i, &v, &t);
+        }
         "gen-stress" => {
             let mut rng = Rng::new(arg_u64(2, 1) ^ 0x5757);
             let n = arg_u64(3, 4);
@@ -1082,7 +1145,12 @@ fn main() {
         }
         "run" => {
             for line in stdin_lines() {
-                if line.starts_with("vq conc") {
+                if line.starts_with("vq clones ") {
+                    let p = line.split(' ').nth(2).and_then(|x| x.parse().ok()).unwrap_or(0);
+                    let (i, v, t) = run_clones(p);
+                    emit(&mut out, line.trim(), &i, &v, &t);
+                }
+                else if line.starts_with("vq conc") {
                     match conc_script_of_trace(&line) {
                         Some(script) => emit_all(&mut out, run_conc_parallel(vec![script], 1)),
                         None => emit(&mut out, &line, "bad-case", "ok", ""),
